@@ -3,6 +3,7 @@ C16 — property theorems (statements, short proofs from the lemmas, non-vacuity
 Helper lemmas: ProofsMap / ProofsQueue / ProofsSet / ProofsRW / ProofsCache.
 -/
 import GoZero.C16.ProofsSet
+import GoZero.C16.ProofsRW
 namespace GoZero.C16
 
 /-! ## Queue behaves as a FIFO -/
@@ -104,5 +105,40 @@ example : (SafeMap.init.run 2 2 [.set 1 10, .set 2 20, .set 3 30, .set 4 40, .se
     ∧ (SafeMap.init.run 2 2 [.set 1 10, .set 2 20, .set 3 30, .set 4 40, .set 5 50, .del 1, .del 2, .del 3, .set 4 41,
       .set 6 60, .del 6]).get 4 = some 41 := by
   decide
+
+/-! ## RollingWindow is a view of the event log -/
+
+/-- **`rw_refines_log`.**  For every `size ≥ 1`, `interval ≥ 1`, `ignoreCurrent`, creation time `t0`, every
+time-monotone history of additions `(time, value)` and every later time `now` — landing on, before or after
+bucket boundaries, with gaps shorter or longer than the window — `Reduce` at `now` hands out, oldest first,
+exactly the buckets of the last `size` intervals as cut from the log (`Spec.visible`): the bucket of age `a`
+holds the values added during interval `idx now - a`, in arrival order; buckets younger than the newest
+addition are not visited (they cannot hold anything) and the current interval is left out when
+`ignoreCurrent` is set. -/
+theorem rw_refines_log (size interval : Nat) (hs : 1 ≤ size) (hi : 1 ≤ interval) (ign : Bool) (t0 : Nat)
+    (evs : List (Nat × Nat)) (hmono : List.Pairwise (· ≤ ·) (t0 :: evs.map (·.1)))
+    (now : Nat) (hnow : ∀ t, t ∈ t0 :: evs.map (·.1) → t ≤ now) :
+    ((RW.new size interval ign t0).run evs).reduce now = Spec.visible size ign t0 interval evs now := by
+  simp only [List.pairwise_cons] at hmono
+  have h0 := RW.rep_new size interval ign t0 hs hi
+  obtain ⟨r1, r2, r3, r4, r5⟩ := RW.run_rep t0 evs (RW.new size interval ign t0) [] 0 h0
+    (by simp [Spec.lastIdx]) hmono.2
+    (fun e he => hmono.1 e.1 (List.mem_map_of_mem (f := (·.1)) he))
+    now (hnow t0 (by simp)) (fun e he => hnow e.1 (by simp only [List.mem_cons]; exact Or.inr (List.mem_map_of_mem (f := (·.1)) he)))
+  have := RW.reduce_rep _ t0 _ _ now r1 r5
+  rw [r2, r3, r4] at this
+  rw [this]
+  simp only [Spec.visible, RW.new]
+  congr
+
+/-- window spans of exactly size-1 / size / size+1 buckets (size 3, interval 10, t0 = 5): additions in
+intervals 0, 1, 2; reduce in interval 2 (all three), 3 (two left), 4 (one left), 5 (none) -/
+example : ((RW.new 3 10 false 5).run [(5, 1), (14, 2), (15, 3), (25, 4)]).reduce 34 = [[1, 2], [3], [4]]
+    ∧ ((RW.new 3 10 false 5).run [(5, 1), (14, 2), (15, 3), (25, 4)]).reduce 35 = [[3], [4]]
+    ∧ ((RW.new 3 10 false 5).run [(5, 1), (14, 2), (15, 3), (25, 4)]).reduce 45 = [[4]]
+    ∧ ((RW.new 3 10 false 5).run [(5, 1), (14, 2), (15, 3), (25, 4)]).reduce 55 = []
+    ∧ ((RW.new 3 10 true 5).run [(5, 1), (14, 2), (15, 3), (25, 4)]).reduce 34 = [[1, 2], [3]] := by decide
+
+example : List.Pairwise (· ≤ ·) (5 :: [(5, 1), (14, 2), (15, 3), (25, 4)].map (·.1)) := by decide
 
 end GoZero.C16
